@@ -2,7 +2,7 @@
    Property theorems only; each closed by [exact] of a lemma proved in Proofs/Bind*.v about the
    executable model Bind/Bind.v (impl-model) and Bind/Spec.v (denotation, vocabulary). *)
 Require Import IP.Base.Bytes IP.DM.Value IP.Bind.GoVal IP.Bind.Bind IP.Bind.Spec.
-Require Import IP.Proofs.BindFacts IP.Proofs.BindView IP.Proofs.BindAsm IP.Proofs.BindPure IP.Proofs.BindRefute IP.Proofs.BindMain.
+Require Import IP.Proofs.BindFacts IP.Proofs.BindView IP.Proofs.BindAsm IP.Proofs.BindFits IP.Proofs.BindPure IP.Proofs.BindRefute IP.Proofs.BindMain.
 
 (* Wrap: for every quirk setting, level (type / representation), bindable pair and well-formed Go
    value, the node view computed along bindnode's reflection code paths succeeds and is the
@@ -26,25 +26,26 @@ Proof. exact unwrap_thm. Qed.
 Print Assumptions C19_unwrap.
 
 (* Marshal then Unmarshal through any codec that returns what it was given: the fresh Go value is
-   well formed and holds the same data.  PARTIAL: the representation of the value is assumed to
-   fit the type ([fits], decidable, evaluated per case by the driver); that every well-formed
-   value's representation fits is not proved (it needs kinded-union and enum well-formedness of
-   the schema).  Codecs that sort map keys are covered by the correspondence run only. *)
-Definition C19_marshal_full : Prop :=
+   well formed and holds the same data (same representation-level denotation, same view).  Codecs
+   that reorder map entries (the key-sorting defaults of dag-cbor / dag-json) are covered by the
+   correspondence run only. *)
+Theorem C19_marshal_roundtrip :
   forall q n32 (enc : dm -> bytes) (dec : bytes -> bres dm), (forall d, dec (enc d) = Ok d) ->
   forall t s g, is_any t = false -> bindable t s = true -> gv_ok q n32 t s g = true ->
-  exists b g', marshal q enc t s g = Ok b /\ unmarshal q n32 dec t s b = Ok g' /\
-               gv_ok q n32 t s g' = true /\ denote LRepr t g' = denote LRepr t g.
-
-Theorem C19_marshal_roundtrip_partial :
-  forall q n32 (enc : dm -> bytes) (dec : bytes -> bres dm), (forall d, dec (enc d) = Ok d) ->
-  forall t s g, is_any t = false -> bindable t s = true -> gv_ok q n32 t s g = true ->
-  fits q LRepr n32 t s (denote LRepr t g) = true ->
   exists b g', marshal q enc t s g = Ok b /\ unmarshal q n32 dec t s b = Ok g' /\
                gv_ok q n32 t s g' = true /\ denote LRepr t g' = denote LRepr t g /\
                view q LRepr t s g' = view q LRepr t s g.
-Proof. exact marshal_roundtrip. Qed.
-Print Assumptions C19_marshal_roundtrip_partial.
+Proof. exact marshal_full_thm. Qed.
+Print Assumptions C19_marshal_roundtrip.
+
+(* Unwrap then rebuild: the view of any well-formed value fits its type, so the value can be
+   rebuilt from what Wrap shows (both levels) into a value holding the same data. *)
+Theorem C19_rebuild : forall q lv n32 t s g,
+  bindable t s = true -> gv_ok q n32 t s g = true ->
+  exists g', asm q lv n32 t s (zero_of s) false (denote lv t g) = Ok g'
+             /\ gv_ok q n32 t s g' = true /\ denote lv t g' = denote lv t g.
+Proof. exact rebuild_thm. Qed.
+Print Assumptions C19_rebuild.
 
 (* Purity.  The full statement: every call of every history gives what the same call gives on the
    initial state and none ends in the duplicate-type-name panic. *)
